@@ -102,7 +102,7 @@ func runC05(c *core.Ctx) {
 	c.Count("wide_and_deep_documents", int64(len(wide)))
 	// constant and non-constant positions with every shape of value; the small-scope documents (light)
 	// and the scale family as texts to parse
-	extra := ConstSitesQuery()
+	extra := append(ConstSitesQuery(), NonTokenPlacements(false)...)
 	for _, k := range SmallScopeLight() {
 		extra = append(extra, k.Query)
 	}
